@@ -12,6 +12,13 @@
          ("not current"), or if its registration by NewSession was never announced ([owed]);
        - repeat traffic: nothing.
    * purge: one offline notification per address that ages out (any order; compared sorted).
+   * DHCP (library mechanism, "a DHCP-announced address"): SetDHCPv4IPOffer(mac, y) and DHCPv4Update(mac, y)
+     record y as the address offered to mac.  DHCPv4Update is a sighting of (mac, y) without a frame: what it
+     changes (y created / re-bound / back online, y's learned DHCP name changed, other IPv4 addresses of mac
+     turned offline) is OWED and delivered later.  A frame that creates no host event and is classified DHCPv4
+     delivers, through its source MAC's recorded offer y, what is owed to y (with the owed offline siblings of
+     y first when y is IPv4), carrying y's tracked online flag.  The record of the offer lives exactly as
+     long as the MAC is tracked: a MAC that loses its last address (purge, re-binding) loses the offer.
    * name update of a tracked address that changes the learned name: one further notification is OWED to
      that address.  It is delivered with the next notification about the address: its next frame (repeat
      traffic then is not quiet), its return from offline, its ageing, or -- when the address is offline --
@@ -27,11 +34,19 @@ Inductive unit6 : Set :=
 | UFrame (f : fsum) (now : Z)
 | UPurge (now : Z)
 | UName (kd : nkind) (k : ip) (name : N)
+| UUpdate (m : mac) (k : ip) (name : N) (now : Z)     (* DHCPv4Update *)
+| UOffer (m : mac) (k : ip)                           (* SetDHCPv4IPOffer *)
 | UOther.
 
-Record rstate : Type := { r_map : amap; r_owed : list ip; r_names : ip -> names }.
+Record rstate : Type := {
+  r_map : amap;
+  r_owed : list ip;            (* addresses to which a notification is owed *)
+  r_names : ip -> names;       (* learned names per address *)
+  r_offer : mac -> ip;         (* the address offered to a MAC (IPnone: none recorded) *)
+  r_dom : list ip }.           (* every address ever tracked (finite support of r_map) *)
 
 Definition remove_ip (k : ip) (l : list ip) : list ip := filter (fun x => negb (ip_eqb x k)) l.
+Definition add_ip (k : ip) (l : list ip) : list ip := if existsb (ip_eqb k) l then l else k :: l.
 
 (* address x was online before and is (still tracked and) offline after *)
 Definition flipb (a a' : amap) (x : ip) : bool :=
@@ -62,64 +77,134 @@ Definition name_changes (r : rstate) (kd : nkind) (k : ip) (name : N) : bool :=
   | None => false
   end.
 
+(* ---- the recorded DHCP offers live as long as their MAC is tracked ---- *)
+Definition owns (a : amap) (m : mac) (x : ip) : bool :=
+  match a x with Some e => a_mac e =? m | None => false end.
+Definition has_addr (a : amap) (dom : list ip) (m : mac) : bool := existsb (owns a m) dom.
+(* after the map changed from a to a': a MAC that lost an address and has none left is forgotten, with its offer *)
+Definition offers_after (a a' : amap) (dom : list ip) (off : mac -> ip) : mac -> ip :=
+  fun m => if existsb (fun x => owns a m x && negb (owns a' m x)) dom && negb (has_addr a' dom m) then IPnone else off m.
+Definition set_offer_of (off : mac -> ip) (m : mac) (k : ip) : mac -> ip := fun m' => if m' =? m then k else off m'.
+
+(* the DHCP path of Notify: a frame without host event, classified DHCPv4, whose source MAC has a recorded offer y
+   that is tracked and owed a notification *)
+Definition dhcp_target (r : rstate) (f : fsum) : option ip :=
+  if f_dhcp4 f then
+    let y := r_offer r (f_src f) in
+    if is_valid y && match r_map r y with Some _ => true | None => false end && existsb (ip_eqb y) (r_owed r)
+    then Some y else None
+  else None.
+Definition dhcp_sib (a : amap) (owed : list ip) (y x : ip) : bool :=
+  is4 y && match a y, a x with
+           | Some ey, Some ex => (a_mac ex =? a_mac ey) && negb (a_online ex)
+           | _, _ => false end && existsb (ip_eqb x) owed.
+
+(* DHCPv4Update(m, k, name): what the sighting without frame makes owed *)
+Definition upd_base (r : rstate) (m : mac) (k : ip) : names := if created (r_map r) m k then names0 else r_names r k.
+Definition upd_changed (r : rstate) (m : mac) (k : ip) (name : N) : bool := snd (merge (n_dhcp (upd_base r m k)) name).
+
 (* ---- per address: the notifications about address x that unit u owes (the "due changes") ---- *)
 Definition due (c : cfg) (r : rstate) (u : unit6) (x : ip) : list (ip * bool) :=
   match u with
   | UFrame f now =>
       match ref_event c f with
-      | None => []
       | Some (m, k) =>
           if ip_eqb x k
           then (if negb (currentb (r_map r) m k) || existsb (ip_eqb k) (r_owed r) then [(k, true)] else [])
           else (if sibling_due (r_map r) (sight m k now (r_map r)) (r_owed r) m k x then [(x, false)] else [])
+      | None =>
+          match dhcp_target r f with
+          | Some y =>
+              if ip_eqb x y
+              then [(y, match r_map r y with Some e => a_online e | None => false end)]
+              else (if dhcp_sib (r_map r) (r_owed r) y x then [(x, false)] else [])
+          | None => []
+          end
       end
   | UPurge now => if flipb (r_map r) (age c now (r_map r)) x then [(x, false)] else []
-  | UName _ _ _ => []
-  | UOther => []
+  | _ => []
   end.
 
 Definition rnext (c : cfg) (r : rstate) (u : unit6) : rstate :=
   match u with
   | UFrame f now =>
       match ref_event c f with
-      | None => r
       | Some (m, k) =>
           let a' := sight m k now (r_map r) in
+          let dom' := add_ip k (r_dom r) in
           {| r_map := a';
              r_owed := filter (fun x => negb (ip_eqb x k) && negb (sibling_due (r_map r) a' (r_owed r) m k x)) (r_owed r);
-             r_names := fun x => if ip_eqb x k && created (r_map r) m k then names0 else r_names r x |}
+             r_names := fun x => if ip_eqb x k && created (r_map r) m k then names0 else r_names r x;
+             r_offer := offers_after (r_map r) a' dom' (r_offer r);
+             r_dom := dom' |}
+      | None =>
+          match dhcp_target r f with
+          | Some y =>
+              {| r_map := r_map r;
+                 r_owed := filter (fun x => negb (ip_eqb x y) && negb (dhcp_sib (r_map r) (r_owed r) y x)) (r_owed r);
+                 r_names := r_names r; r_offer := r_offer r; r_dom := r_dom r |}
+          | None => r
+          end
       end
   | UPurge now =>
-      {| r_map := age c now (r_map r);
-         r_owed := filter (fun x => negb (flipb (r_map r) (age c now (r_map r)) x)) (r_owed r);
-         r_names := r_names r |}
+      let a' := age c now (r_map r) in
+      {| r_map := a';
+         r_owed := filter (fun x => negb (flipb (r_map r) a' x)) (r_owed r);
+         r_names := r_names r;
+         r_offer := offers_after (r_map r) a' (r_dom r) (r_offer r);
+         r_dom := r_dom r |}
   | UName kd k name =>
       if name_changes r kd k name
       then {| r_map := r_map r; r_owed := k :: r_owed r;
-              r_names := fun x => if ip_eqb x k then nset kd name (r_names r k) else r_names r x |}
+              r_names := fun x => if ip_eqb x k then nset kd name (r_names r k) else r_names r x;
+              r_offer := r_offer r; r_dom := r_dom r |}
       else r
+  | UUpdate m k name now =>
+      if is_valid k && negb (is_unspecified k) then
+        let a := r_map r in
+        let a' := sight m k now a in
+        let dom' := add_ip k (r_dom r) in
+        let base := upd_base r m k in
+        {| r_map := a';
+           r_owed := (if negb (currentb a m k) || upd_changed r m k name then [k] else []) ++
+                     filter (fun x => negb (ip_eqb x k) && flipb a a' x) dom' ++ r_owed r;
+           r_names := fun x => if ip_eqb x k then (if upd_changed r m k name then nset KDhcp name base else base)
+                               else r_names r x;
+           r_offer := set_offer_of (offers_after a a' dom' (r_offer r)) m k;
+           r_dom := dom' |}
+      else r
+  | UOffer m k =>
+      {| r_map := r_map r; r_owed := r_owed r; r_names := r_names r;
+         r_offer := set_offer_of (r_offer r) m k; r_dom := r_dom r |}
   | UOther => r
   end.
 
-(* ---- the same as one list per unit, over an enumeration [dom] of candidate addresses (executable) ---- *)
-Definition expect (c : cfg) (dom : list ip) (r : rstate) (u : unit6) : list (ip * bool) * rstate :=
+(* ---- the same as one list per unit, enumerated over the tracked addresses (executable) ---- *)
+Definition expect (c : cfg) (r : rstate) (u : unit6) : list (ip * bool) * rstate :=
   (match u with
    | UFrame f now =>
        match ref_event c f with
-       | None => []
        | Some (m, k) =>
            map (fun k' => (k', false))
                (filter (fun k' => negb (ip_eqb k' k) &&
-                                  sibling_due (r_map r) (sight m k now (r_map r)) (r_owed r) m k k') dom) ++
+                                  sibling_due (r_map r) (sight m k now (r_map r)) (r_owed r) m k k') (r_dom r)) ++
            (if negb (currentb (r_map r) m k) || existsb (ip_eqb k) (r_owed r) then [(k, true)] else [])
+       | None =>
+           match dhcp_target r f with
+           | Some y =>
+               map (fun k' => (k', false))
+                   (filter (fun k' => negb (ip_eqb k' y) && dhcp_sib (r_map r) (r_owed r) y k') (r_dom r)) ++
+               [(y, match r_map r y with Some e => a_online e | None => false end)]
+           | None => []
+           end
        end
-   | UPurge now => map (fun k => (k, false)) (filter (flipb (r_map r) (age c now (r_map r))) dom)
-   | UName _ _ _ => []
-   | UOther => []
+   | UPurge now => map (fun k => (k, false)) (filter (flipb (r_map r) (age c now (r_map r))) (r_dom r))
+   | _ => []
    end, rnext c r u).
 
 Definition rinit (c : cfg) (now : Z) : rstate :=
-  {| r_map := ref_init c now; r_owed := [own_ip4 c; rt_ip4 c]; r_names := fun _ => names0 |}.
+  {| r_map := ref_init c now; r_owed := [own_ip4 c; rt_ip4 c]; r_names := fun _ => names0;
+     r_offer := fun _ => IPnone; r_dom := add_ip (rt_ip4 c) [own_ip4 c] |}.
 
 (* the notifications about one address, in emission order *)
 Definition about (x : ip) (l : list (ip * bool)) : list (ip * bool) := filter (fun p => ip_eqb (fst p) x) l.
